@@ -262,11 +262,27 @@ func runC14(rc *runCtx) *RunResult {
 		}
 		ntasks := 2 + int(t.Uint(maxExtraTasks))
 		scripts := make([][]Op, ntasks)
+		// hammer mode: every task asks many point-containment questions of one object (behaviour
+		// that switches after a number of calls, such as "build the index after N unindexed
+		// calls", only shows when one object is asked often enough)
+		hammer := -1
+		if t.Chance(120) {
+			hammer = int(t.Uint(uint32(len(w.descs))))
+			rc.inc("hammer_bursts", 1)
+		}
 		for k := range scripts {
 			n := 1 + int(t.Uint(maxOps))
+			if hammer >= 0 {
+				n = 6 + int(t.Uint(12))
+			}
 			scripts[k] = make([]Op, n)
 			for i := range scripts[k] {
 				scripts[k][i] = drawQuery(g, w.descs, true)
+				if hammer >= 0 {
+					hq := drawQueryOn(g, w.descs, hammer)
+					hq.Kind = QContainsPoint
+					scripts[k][i] = hq
+				}
 				rc.log("burst%d task%d op%d %s", burst, k, i, scripts[k][i].String())
 			}
 		}
